@@ -138,3 +138,19 @@ Theorem C20_bitpacked_array_in_bounds : forall entries max_vocab remaining i off
   0 <= off < bits_needed max_vocab + remaining ->
   (i * (bits_needed max_vocab + remaining) + off) / 8 + 8 <= bitpacked_base_size entries max_vocab remaining.
 Proof. exact record_access_in_bounds. Qed.
+
+(* ---- ProbingHashTable::Double (in place) and AutoProbing growth (util/probing_hash_table.hh):
+        doubling keeps the map, the entry count and re-establishes the probing invariant for the doubled bucket count --
+        wrapped-around entries included -- for both mod policies; AutoProbing::FindOrInsert therefore refines an
+        unbounded map and never throws or runs out of fuel. *)
+From Kenlm Require Import C20.DoubleProofs.
+Theorem C20_double_preserves_map : forall m old ent mm,
+  policy_ok m (length old) ->
+  rep (length old) (ideal_of m (length old)) {| cells := old; entries := ent |} mm ->
+  exists c3, double_cells m old = Some c3 /\ length c3 = (2 * length old)%nat /\
+             rep (2 * length old) (ideal_of m (2 * length old)) {| cells := c3; entries := ent |} mm.
+Proof. exact double_refines. Qed.
+
+Theorem C20_auto_probing_refines_map : forall ops a mm, arep a mm -> Forall (fun kv => fst kv <> 0) ops ->
+  auto_run a ops = amap_run mm ops.
+Proof. exact auto_run_refines. Qed.
